@@ -3,7 +3,7 @@ import sys
 from harness import common
 from symrun import loader
 loader.install()
-from harness.explore import Explore, make_jobs  # noqa: E402
+from harness.explore import Explore, make_jobs, make_random_jobs  # noqa: E402
 
 CONFIGS = {
     "set-set-lossy": dict(modes=("set", "set"), nmsg=(1, 1), eager=False, max_opens=4),
@@ -64,7 +64,7 @@ class LossExplore(Explore):
 
 
 def jobs(tier):
-    return make_jobs(LossExplore, tier, 3, 4, stepq=8, stept=6)
+    return make_jobs(LossExplore, tier, 3, 4, stepq=8, stept=6) + make_random_jobs(LossExplore, tier)
 
 
 ASSUMPTIONS = [
